@@ -1928,6 +1928,8 @@ BOUNDED = [
 
 TRUSTED = [
     "pyvc engine, z3, cvc5",
+    "getter with a past (round 5): torch.is_grad_enabled() is an arbitrary boolean that is the same for both reads; Tensor._version is the write counter of the array model; "
+    "the first read uses ONE other setting (identical_slices, apply_fov_mask, positivity all flipped) - other pasts (object type or mask changed, several earlier reads) are not explored",
     "A4 lemma instances for sqrt / cos / sin / atan2 (sqrt(t)^2 = t for t >= 0, cos^2+sin^2 = 1); no other fact about atan2/angle is used",
     "complex arithmetic of torch tensors = field arithmetic on (re, im) pairs; abs = sqrt(re^2+im^2); exp(i x) = (cos x, sin x) (pyvc/lib/c10_models.py, pixel domain)",
     "inner-product domain (pyvc/lib/c10_models.py): a pixel sum of conj(x)*y is the sesquilinear form <x,y>; expansion of pixel sums over finite linear combinations; conjugate symmetry and positivity axioms",
